@@ -90,6 +90,19 @@ Predicted(r) ==
        acquired  |-> d.acquired,
        wrote     |-> d.wrote ]
 
+(* files outside the modelled classes that a row may (but need not) touch:  *)
+(* an uploader that gets as far as looking for work creates the upload     *)
+(* directory next to the local one; with a crash-reporting sidecar that is *)
+(* a race with the end of the application, so it is not demanded            *)
+UploaderRuns(r) == Launch(r).upload \/ (r.marker = "1" /\ r.upload)
+MayWrite(r) == IF UploaderRuns(r) /\ r.mode # "off" /\ r.localOK THEN {"uploaddir"} ELSE {}
+(* exact agreement of an outcome with the table *)
+Conforms(r, o) == /\ o.sidecars = Predicted(r).sidecars /\ o.uploaders = Predicted(r).uploaders
+                  /\ o.nested = 0 /\ o.launched = Predicted(r).launched
+                  /\ o.acquired = Predicted(r).acquired
+                  /\ Predicted(r).wrote \subseteq o.wrote
+                  /\ o.wrote \subseteq Predicted(r).wrote \cup MayWrite(r)
+
 (* sanity theorems about the table itself (checked by TLC over all rows) *)
 TableSatisfiesProperty == \A r \in Rows : \A c \in Clauses : Holds(c, r, Predicted(r))
 TableNotVacuous ==
